@@ -72,6 +72,11 @@ class Tree:
         from hugr.build.function import Module
         self.builders = []       # (builder, kind)
         self.sources = []        # (node, offset, pkind)
+        self.tags = {}           # index in sources -> tag of a container-output source (round 2)
+        self.cfgs = []           # (Cfg builder, index of its entry block in builders)
+        self.conds = {}          # builder index of a case -> Conditional node
+        self.closed = set()      # builder indices whose outputs were set by a "close" step
+        self.exited = set()      # indices in cfgs whose exit type was established by an "exitcfg" step
         self.root_kind = root
         if root == "dfg":
             d = Dfg(tys.Qubit)
@@ -80,6 +85,7 @@ class Tree:
         elif root == "cfg":
             c = Cfg(tys.Qubit)
             self.hugr = c.hugr
+            self.cfgs.append((c, 0))
             self._add_builder(c.add_entry(), "block")
             self._add_builder(c.add_block(tys.Qubit), "block")
         else:
@@ -99,12 +105,19 @@ class Tree:
             self._add_builder(f, "func")
             self.sources.append((f.parent_node, 0, "KFunction"))
             return
-        b, _ = self.builders[s[1] % len(self.builders)]
+        if k == "exitcfg":
+            self._exit_cfg(s[1])
+            return
+        bi = s[1] % len(self.builders)
+        b, bkind = self.builders[bi]
         q = b.inputs()[0]
-        if k == "nested":
+        if k == "close":
+            self._close(bi, b, bkind, q)
+        elif k == "nested":
             self._add_builder(b.add_nested(q), "dfg")
         elif k == "cfg":
             c = b.add_cfg(q)
+            self.cfgs.append((c, len(self.builders)))
             self._add_builder(c.add_entry(), "block")
             for _ in range(s[2]):
                 self._add_builder(c.add_block(tys.Qubit), "block")
@@ -113,6 +126,7 @@ class Tree:
             sw = b.add_op(custom(0, [tys.Sum(rows)]))
             c = b.add_conditional(sw, q)
             for i in range(s[2]):
+                self.conds[len(self.builders)] = c.parent_node
                 self._add_builder(c.add_case(i), "case")
         elif k == "loop":
             self._add_builder(b.add_tail_loop([], [q]), "loop")
@@ -128,6 +142,73 @@ class Tree:
         else:
             raise AssertionError(k)
 
+    # ---- round 2: containers whose signature is established; their own output ports become sources
+    def _container_source(self, node, pk, tag):
+        self.tags[len(self.sources)] = tag
+        self.sources.append((node, 0, pk))
+
+    def _close(self, bi, b, bkind, q):
+        """Set the outputs of builder bi to its first input: the container node gets an output row, so
+        node.out(0) is a typed port (Value for DFG / Conditional / TailLoop, Control for a block)."""
+        from hugr import tys
+        if bi in self.closed:
+            return
+        self.closed.add(bi)
+        if bkind == "dfg":
+            b.set_outputs(q)
+            self._container_source(b.parent_node, "KValue", "dfg")
+        elif bkind == "func":
+            b.set_outputs(q)                                  # FuncDefn.out(0) is already a KFunction source
+        elif bkind == "block":
+            b.set_single_succ_outputs(q)
+            self._container_source(b.parent_node, "KControl", "block")
+        elif bkind == "case":
+            b.set_outputs(b.inputs()[-1])                     # (the Qubit input) first closed case establishes the Conditional's outputs
+            self._container_source(self.conds[bi], "KValue", "cond")
+        elif bkind == "loop":
+            sw = b.add_op(custom(0, [tys.Sum([[], []])], "mk"))
+            b.set_loop_outputs(sw.out(0), q)
+            self._container_source(b.parent_node, "KValue", "loop")
+        else:
+            raise AssertionError(bkind)
+
+    def _exit_cfg(self, i):
+        """Establish the exit type of a CFG (entry -> exit): the CFG node gets the output row [Qubit]."""
+        if not self.cfgs:
+            return
+        ci = i % len(self.cfgs)
+        if ci in self.exited:
+            return
+        self.exited.add(ci)
+        c, ei = self.cfgs[ci]
+        e, _ = self.builders[ei]
+        if ei not in self.closed:
+            self._close(ei, e, "block", e.inputs()[0])
+        c.branch_exit(e[0])
+        self._container_source(c.parent_node, "KValue", "cfg")
+
+    def root_source(self):
+        """The root node's first output port: a Value port once the root's signature is established."""
+        if self.root_kind == "dfg":
+            pk = "KValue" if 0 in self.closed else "KInvalid"
+        elif self.root_kind == "cfg":
+            pk = "KValue" if 0 in self.exited else "KInvalid"
+        else:
+            pk = "KInvalid"
+        return (self.hugr.root, 0, pk)
+
+    def pick_source(self, case):
+        """Old cases: src indexes all sources.  srcsel = "root": the root node itself; "cont": src indexes
+        the container-output sources (falls back to all sources when there is none)."""
+        sel = case.get("srcsel")
+        if sel == "root":
+            return self.root_source(), "root"
+        idx = list(range(len(self.sources)))
+        if sel == "cont" and self.tags:
+            idx = sorted(self.tags)
+        i = idx[case["src"] % len(idx)]
+        return self.sources[i], self.tags.get(i, "plain")
+
     def ptable(self):
         out = []
         for pos, n in enumerate(self.hugr):
@@ -142,7 +223,7 @@ def obs_wire(case):
     for s in case["steps"]:
         t.step(s)
     tb, tkind = t.builders[case["tgt"] % len(t.builders)]
-    node, off, pk = t.sources[case["src"] % len(t.sources)]
+    (node, off, pk), stag = t.pick_source(case)
     h = t.hugr
     before = len(h)
     orders_before = set((a.idx, b.idx) for a in h for b in h.outgoing_order_links(a))
@@ -166,7 +247,7 @@ def obs_wire(case):
         a = pt[a]
     return {"exc": exc, "pt": pt, "src": node.idx, "tgt": tgt, "k": pk, "blk": blk, "sib": sib,
             "order": orders[0] if len(orders) == 1 else (None if not orders else [-1, -1]),
-            "tkind": tkind, "via": via, "depth_tgt": depth(t.ptable(), tgt), "depth_src": depth(t.ptable(), node.idx)}
+            "stag": stag, "tkind": tkind, "via": via, "depth_tgt": depth(t.ptable(), tgt), "depth_src": depth(t.ptable(), node.idx)}
 
 
 def depth(pt, n):
@@ -516,6 +597,22 @@ def gen_wire(rng):
             "via": "set_outputs" if rng.random() < 0.2 else "add_op"}
 
 
+def gen_wire2(rng):
+    """Round 2: hierarchies in which some containers (and often the root) have an established signature,
+    with the wire's source taken from the root node itself or from a container node's own output port."""
+    case = gen_wire(rng)
+    steps = case["steps"]
+    r = rng.random()
+    if r < 0.55:
+        steps.insert(rng.randint(0, len(steps)), ["exitcfg", 0] if case["root"] == "cfg" else ["close", 0])
+    for _ in range(rng.randint(0, 4)):
+        steps.insert(rng.randint(0, len(steps)),
+                     ["exitcfg", rng.randrange(8)] if rng.random() < 0.25 else ["close", rng.randrange(64)])
+    r = rng.random()
+    case["srcsel"] = "root" if r < 0.35 else "cont" if r < 0.85 else "any"
+    return case
+
+
 def gen_cond(rng):
     if rng.random() < 0.2:
         ops_ = []
@@ -617,7 +714,8 @@ def gen_serialise(rng):
 
 
 GENS = [(gen_wire, 8), (gen_cond, 4), (gen_exit, 2), (gen_fnout, 2), (gen_call, 3), (gen_plainadd, 2),
-        (gen_tidx, 2), (gen_serialise, 2)]
+        (gen_tidx, 2), (gen_serialise, 2),
+        (gen_wire2, 4)]          # appended last: the streams of the generators above are unchanged
 
 
 class C13(fw.Prop):
@@ -631,6 +729,8 @@ class C13(fw.Prop):
             "polymorphic definitions and declarations; tracked tables with holes; HUGRs with unfinished "
             "containers) followed by one call that is consistent or carries an inconsistency of one class, at a "
             "random position and nesting depth, over random rows from a pool with ==-equal spellings.  "
+            "wire sources include the root node's own output port and the output ports of containers with an "
+            "established signature (DFG, CFG, Conditional, TailLoop, block control port).  "
             "non-trivial = the call is refused, or it is an accepted inter-graph / inter-block wire, or a "
             "session with >= 2 accepted calls")
     trusted = ["the interpreter of case descriptions (harness/props/c13.py) and its knowledge of which kind of "
@@ -667,6 +767,21 @@ class C13(fw.Prop):
             {"kind": "plainadd", "builder": "case", "depth": 0, "args": [[0, 0], 0], "nout": 1, "via": "add"},
             {"kind": "serialise", "root": "dfg", "depth": 1, "parts": [{"what": "cfg", "finish": False}]},
             {"kind": "ifelse", "depth": 1, "ops": [["add_else"], ["add_else"]]},
+            # seeded round 2 (C13-c): the wire's source is the root node itself (no parent, so no sibling):
+            # root Dfg with established outputs -> direct child / nested Dfg; unestablished root; root Cfg
+            # with established exit type -> one of its blocks / a Dfg nested in a block; Module root
+            {"kind": "wire", "root": "dfg", "steps": [["close", 0]], "tgt": 0, "src": 0, "srcsel": "root", "via": "add_op"},
+            {"kind": "wire", "root": "dfg", "steps": [["close", 0], ["nested", 0], ["nested", 1]], "tgt": 2, "src": 0, "srcsel": "root", "via": "add_op"},
+            {"kind": "wire", "root": "dfg", "steps": [["nested", 0]], "tgt": 1, "src": 0, "srcsel": "root", "via": "set_outputs"},
+            {"kind": "wire", "root": "cfg", "steps": [["exitcfg", 0]], "tgt": 1, "src": 0, "srcsel": "root", "via": "add_op"},
+            {"kind": "wire", "root": "cfg", "steps": [["exitcfg", 0], ["nested", 1]], "tgt": 2, "src": 0, "srcsel": "root", "via": "add_op"},
+            {"kind": "wire", "root": "module", "steps": [["close", 0]], "tgt": 0, "src": 0, "srcsel": "root", "via": "add_op"},
+            # a container's own output port as the source: sibling wire (accepted), from a sibling region
+            # (refused), a block's control port (ValueError), a nested CFG's output into another CFG's block
+            {"kind": "wire", "root": "dfg", "steps": [["nested", 0], ["close", 1]], "tgt": 0, "src": 0, "srcsel": "cont", "via": "add_op"},
+            {"kind": "wire", "root": "dfg", "steps": [["nested", 0], ["nested", 1], ["close", 2], ["nested", 0]], "tgt": 3, "src": 0, "srcsel": "cont", "via": "add_op"},
+            {"kind": "wire", "root": "cfg", "steps": [["close", 0]], "tgt": 1, "src": 0, "srcsel": "cont", "via": "add_op"},
+            {"kind": "wire", "root": "dfg", "steps": [["cfg", 0, 0], ["exitcfg", 0], ["cfg", 0, 1]], "tgt": 3, "src": 1, "srcsel": "cont", "via": "add_op"},
         ]
 
     def generate(self, rng, tier, ctx):
@@ -784,6 +899,12 @@ class C13(fw.Prop):
                 dd[str(o["depth_tgt"])] = dd.get(str(o["depth_tgt"]), 0) + 1
                 tk = e.setdefault("target_builder", {})
                 tk[o["tkind"]] = tk.get(o["tkind"], 0) + 1
+                sk = e.setdefault("source", {})
+                sk[o["stag"]] = sk.get(o["stag"], 0) + 1
+                if o["stag"] != "plain":
+                    ck = e.setdefault("container_or_root_source_classes", {})
+                    key = "%s:%s:%s" % (o["stag"], o["k"], o["exc"])
+                    ck[key] = ck.get(key, 0) + 1
                 if o["exc"] is None:
                     a = e.setdefault("accepted", {"sibling": 0, "inter_graph_with_order_edge": 0, "inter_block": 0})
                     a["inter_graph_with_order_edge" if o["order"] else
